@@ -224,6 +224,7 @@ def observe (w : World) (last : List (Option String)) : String × List (Option S
       | none => (acc.1, acc.2 ++ [none])
       | some s =>
         let d := showDump s ++ (if s.db.rowsBelowB then "" else " !rows-above-last_row_num")
+          ++ (if s.db.packetsTotalB then "" else " !packet-not-total")
         if (last.getD i none) == some d then (acc.1 ++ " " ++ toString i ++ ":=", acc.2 ++ [some d])
         else (acc.1 ++ " " ++ toString i ++ ":" ++ d, acc.2 ++ [some d])) ("", [])
   (" ; ac=" ++ bits ++ txt, last')
